@@ -213,7 +213,8 @@ Denotes2(c, ic) == [c EXCEPT !.cb = IF ic THEN <<>> ELSE c.cb,
 Alphabet2 ==
   { K("lc", "a"), K("lc", "x1"), K("uc", "A"), K("Type", "Type"), K("lcns", "a.b"), K("ucns", "a.B"), K("dep", "_a"), K("_", "_"),
     K("num", "0"), K("num", "1"), K("num", "4294967295"), K("num", "4294967296"),
-    K("#", "#"), K("tag", "#00000000"), K("tag", "#1234abcd"), K("ann", "@a"),
+    K("num", "18446744073709551615"), K("num", "18446744073709551616"),
+    K("#", "#"), K("tag", "#00000000"), K("tag", "#1234abcd"), K("tag", "#ffffffff"), K("ann", "@a"),
     P("["), P("]"), P("<"), P(">"), P(":"), P(";"), P("."), P(","), P("="), P("=>"), K("<=>", "<=>"), P("?"), P("|"), P("-"),
     P("("), P(")"), P("{"), P("}"), P("%"), P("*"), P("+"), P("!"),
     K("sec_t", "---types---"), K("sec_f", "---functions---"),
